@@ -442,9 +442,9 @@ pub fn run() {
     ctx.set("programs_loaded_through_the_interface", listed);
     ctx.set("evaluations", all.n);
     ctx.set("distinct_nontrivial", all.accepted);
-    ctx.set("rule", "every enumerated source text goes parse -> Translator::compile -> Machine::load (+ new_with_program, 12 steps, byte-code listing) under catch_unwind; distinct_nontrivial = texts accepted by the parser (the later stages ran); a cross-section additionally runs through the real binary: `verify` exit 0 implies `run` does not die by panic");
+    ctx.set("rule", "every enumerated source text goes parse -> Translator::compile -> Machine::load (+ new_with_program, 12 steps, byte-code listing) under catch_unwind; distinct_nontrivial = texts accepted by the parser (the later stages ran); a cross-section additionally runs through the real binary: `verify` exit 0 implies `run` does not die by panic; about 2 300 accepted programs are loaded by the interactive front-end (TUI harness as a child process: start-up program, `load` command, listing pane drawn)");
     ctx.set("exhaustive", true);
-    ctx.set("bounds", format!(".ORG a after every position p: {} x 256 pairs; images of every size 0..=300 by 7 constructions; sentence / line-shape / label-rule families of C03; the relative-jump (every distance), directive-prefix layout and limit families of C02; single-token mutations of the small repository programs; {} process invocations ({} programs accepted by `verify`)", if quick { 11 } else { 256 }, spawned, proc_accepted));
+    ctx.set("bounds", format!(".ORG a after every position p: {} x 256 pairs; images of every size 0..=300 by 7 constructions x limit directives; every line kind followed by .ORG at the RAM limit; long texts (up to 20 000 lines, 100 000-character lines); sentence / line-shape / label-rule families of C03; the relative-jump (every distance), directive-prefix layout and limit families of C02; single-token mutations of the small repository programs; {} process invocations ({} programs accepted by `verify`)", if quick { 11 } else { 256 }, spawned, proc_accepted));
     ctx.set("accepted_programs", all.accepted);
     ctx.set("compiled_and_loaded_without_panic", all.ok);
     let mut fj = Json::obj();
